@@ -53,7 +53,7 @@ P("C22",
             "model/implementation tie on the kernels and on whole runs + verified acceptor on real command streams; preset tables regenerated from the real builder on every run",
   level_text="PARTIAL (completion is sampled). Proved, closed, for every timing table, every tFAW and every oracle: c22_state_machine_legal with its readings "
              "c22_row_activated_before_access and c22_precharged_before_activate, c22_min_separation (ANY two issued commands, any table entry of the relation "
-             "same bank / other bank of the group / same rank / other rank), c22_tfaw (four-activate window), c22_acceptor_sound (the boolean evaluators used on "
+             "same bank / other bank of the group / same rank / other rank), c22_tfaw (four-activate window), c22_init_state + c22_flat_index_bijection (the state Build installs is well-formed, all closed, history-free and bankFlatIndex is a bijection onto the nr*nbg*nb slots, for ARBITRARY geometry) and hence c22_clean_start (legal + all separations + tFAW for every clean start, no computed side condition), c22_acceptor_sound (the boolean evaluators used on "
              "observed streams mean the same declarative statements), c22_run_is_trace, c22_model_agreement_implies_property (for oracle runs of the real kernels from a clean state, agreement with the model implies the property predicate on the observed stream). Tie: (1) the real kernels (tickBanks, getReadyCommand incl. tFAW, "
              "startCommand, updateTiming, reached through verif-tagged wrappers) driven by a random oracle from clean and arbitrary bank states must agree with the "
              "model on every readiness decision, every progress flag and the final bank-level state; (2) real dram.Comp runs under contended traffic for every preset "
